@@ -256,16 +256,25 @@ Proof.
   - left. split; auto.
 Qed.
 
-Lemma lk_inv_step : forall s i s', lk_inv s -> lk_step i s = Some s' -> lk_inv s'.
+(* one step, with the frame stacks made explicit: only the moving thread's stack changes, by the
+   bracket-checker step of the executed instruction *)
+Lemma lk_inv_step_stk : forall s i s' stk,
+  lk_thr_ok stk (lk_thr s) -> lk_lock_ok stk (length (lk_thr s)) (lk_l s) ->
+  lk_step i s = Some s' ->
+  exists o rest k',
+    nth_error (lk_thr s) i = Some (o :: rest) /\ lk_sstep (stk i) o = Some k' /\
+    lk_thr s' = lk_upd (lk_thr s) i rest /\
+    lk_thr_ok (fun j => if Nat.eqb j i then k' else stk j) (lk_thr s') /\
+    lk_lock_ok (fun j => if Nat.eqb j i then k' else stk j) (length (lk_thr s')) (lk_l s').
 Proof.
-  intros s i s' (stk & TO & LO) ST. unfold lk_step in ST.
+  intros s i s' stk TO LO ST. unfold lk_step in ST.
   destruct (nth_error (lk_thr s) i) as [[|o rest]|] eqn:N; try discriminate.
   destruct (lk_exec (lk_tid i) o (lk_l s)) as [l'|] eqn:EX; try discriminate.
-  injection ST as <-. unfold lk_inv. cbn [lk_l lk_thr].
+  injection ST as <-. cbn [lk_l lk_thr].
   destruct (TO i _ N) as (OKi & RUN).
   destruct (lk_srun_cons _ _ _ _ RUN) as (k' & SS & RUN').
   assert (ILT : (i < length (lk_thr s))%nat) by (apply nth_error_Some; congruence).
-  exists (fun j => if Nat.eqb j i then k' else stk j). split.
+  exists o, rest, k'. split; [reflexivity|]. split; [exact SS|]. split; [reflexivity|]. split.
   - intros j p Nj. destruct (Nat.eqb_spec j i) as [->|NE].
     + rewrite (lk_upd_same _ _ _ _ _ N) in Nj. injection Nj as <-.
       split; auto. eapply lk_sstep_ok; eauto.
@@ -289,6 +298,13 @@ Proof.
         destruct (lk_waiter_step _ _ _ OKi SS (NH i ILT NE)) as ((g & ->) & _).
         rewrite L0, lk_lock_blocked in EX; [discriminate|].
         intro E. apply lk_tid_inj in E. contradiction.
+Qed.
+
+Lemma lk_inv_step : forall s i s', lk_inv s -> lk_step i s = Some s' -> lk_inv s'.
+Proof.
+  intros s i s' (stk & TO & LO) ST.
+  destruct (lk_inv_step_stk _ _ _ _ TO LO ST) as (o & rest & k' & _ & _ & _ & TO' & LO').
+  eexists; split; eauto.
 Qed.
 
 Lemma lk_inv_reach : forall progs s,
@@ -847,3 +863,38 @@ Proof.
 Qed.
 
 End RacyRead.
+
+(* ------------------------------------------------------------------ the RECURSIVE_CHECK variant *)
+
+Lemma lk_rc_same : forall t l,
+  (lk_held l = false -> lk_incb l = 0) -> lk_lock_func_rc t l = lk_lock_func t l.
+Proof.
+  intros t l H. unfold lk_lock_func_rc, lk_lock_func.
+  destruct (lk_held l) eqn:HL.
+  - destruct (lk_pid l =? t); destruct (negb (lk_incb l =? 0)); reflexivity.
+  - rewrite (H eq_refl). reflexivity.
+Qed.
+
+(* on every reachable state both variants of coap_lock_lock_func take the same decision for
+   every caller: all theorems hold for a build with COAP_THREAD_RECURSIVE_CHECK as well *)
+Theorem lk_rc_same_reachable : forall progs,
+  Forall (fun p => lk_wfprog p = true) progs -> forall s t,
+  lk_reach (lk_init progs) s -> lk_lock_func_rc t (lk_l s) = lk_lock_func t (lk_l s).
+Proof.
+  intros progs W s t R. apply lk_rc_same. intros H.
+  rewrite (lk_free_is_initial progs W s R H). reflexivity.
+Qed.
+
+(* a state in which no thread can move is one in which every thread has returned: every
+   maximal execution (finite by lk_steps_bounded) ends with all calls completed and, by
+   lk_done_released, with the lock in its initial state *)
+Theorem lk_quiescent_is_done : forall progs,
+  Forall (fun p => lk_wfprog p = true) progs -> forall s,
+  lk_reach (lk_init progs) s -> (forall i, lk_step i s = None) ->
+  lk_all_doneb s = true /\ lk_l s = lk_lock0.
+Proof.
+  intros progs W s R Q.
+  destruct (lk_all_doneb s) eqn:D.
+  - split; auto. apply (lk_done_released progs W); auto.
+  - destruct (lk_progress progs W s R D) as (i & s' & ST). rewrite Q in ST. discriminate.
+Qed.
